@@ -36,6 +36,9 @@ type Prog struct {
 	// TrackSlots: an accepted insert of the (single) client becomes the next slot at once,
 	// so that its later calls can address the object it just created
 	TrackSlots bool `json:"track_slots,omitempty"`
+	// Atomic: reduction "no alternative while the running thread holds an outermost
+	// lock in write mode" (vrt.Config.AtomicOuterWrite)
+	Atomic bool `json:"atomic,omitempty"`
 }
 
 // CallRec is the record of one executed call.
@@ -76,7 +79,7 @@ func runProg(prog Prog, prefix []int, bound int, final func(w *World, r *ExecRes
 		recs[i] = make([]CallRec, len(prog.Threads[i]))
 	}
 	clock := 0
-	cfg := vrt.Config{Prefix: prefix, MaxTicks: 40 + prog.Ticks}
+	cfg := vrt.Config{Prefix: prefix, MaxTicks: 40 + prog.Ticks, AtomicOuterWrite: prog.Atomic}
 	x := vrt.Run(cfg, func() {
 		// set-up and final phases run unscheduled: only the concurrent phase is explored
 		vrt.SetSequential(true)
